@@ -1,4 +1,20 @@
 TEXTS = {
+    "C18": {
+        "text": "Machine-checked Lean 4 theorem C18_holds over Model/Spawn.lean: if no spawn entry point drops the "
+                "task handle and dropping hannibal's ActorHandle detaches, then for every entry point, every runtime "
+                "and every program of drop/detach/stop/call/join operations (any length) the observable outcome "
+                "equals the one on tokio, and every entry point leaves the actor running. What each entry point does "
+                "with the handle (kept/detached/dropped) and whether ActorHandle has a detaching Drop impl are "
+                "re-extracted from spawner.rs, builder.rs, service.rs, actor_handle.rs on every run and the instance "
+                "lemma re-proved by `decide`. Correspondence: a catalogue of timing-independent client programs "
+                "covering every spawn entry point is built and run on the three REAL runtimes; the model must predict "
+                "every observation on every runtime, and the three outputs must be identical.",
+        "design_ref": "DESIGN.md §5 C18, §8 D5",
+        "note": "Trusted: Lean kernel + axioms; the modelled per-runtime meaning of dropping a task handle (the only "
+                "runtime-dependent ingredient), validated by the real runtimes; translator's classification of the "
+                "entry-point bodies; rt18 catalogue and its 1.5 s timeouts. Panics are out of scope of the family.",
+        "technique": "Lean 4 proof (runtime independence by induction over handle programs) + regenerated spawn wiring + real-runtime correspondence",
+    },
     "C07": {
         "text": "Machine-checked Lean 4 theorem C07_holds: for every wiring whose R::refresh calls stopped() before "
                 "started() and aborts the timers registered so far, every run of the actor model is accepted by "
@@ -78,5 +94,5 @@ _PENDING = "check under construction in this round: model + theorem not yet wire
 NOT_APPLICABLE = [
     {"property_id": p, "reason": _PENDING}
     for p in ["C01", "C02", "C04", "C05", "C06", "C08", "C09", "C10", "C11", "C13",
-              "C16", "C17", "C18", "C19"]
+              "C16", "C17", "C19"]
 ]
